@@ -96,7 +96,7 @@ var zzDnForms = []struct{ pre, suf string }{{"", ""}, {"cn=", ""}, {"cn=", ",dc=
 // operation. Names and passwords of the attempts are symbolic strings.
 func zzH_C12_ldap() {
 	rec := &zzLRec{}
-	s := &ldapService{Server: Server{Handlers: make([]requestHandler, 0, 4), Credentials: zzLCreds[zzLen(0, len(zzLCreds)-1)],
+	s := &ldapService{Server: Server{Handlers: make([]requestHandler, 0, 4), Credentials: zzLCreds[zzLen(0, zzParam("CREDS", len(zzLCreds))-1)],
 		DSE: &DSE{SupportedLDAPVersion: []string{"2", "3"}}}}
 	s.setHandlers()
 	s.SetChannel(rec)
